@@ -55,6 +55,71 @@ theorem enabled_once_in_place (cfg : Cfg) (th : Nat → Sev) (sev : Sev) (tag : 
     rw [this]; simp
   · simp
 
+/-! ### an insertion that leaves the string stream failed -/
+
+def rawCalls (raw : List RawItem) : List Event :=
+  raw.filterMap fun it => match it with | .lazy id _ => some (.lazyCall id) | _ => none
+
+/-- whatever fails in between, the callables of the statement stay the callables -/
+theorem lazyCalls_silence (failed : Bool) (raw : List RawItem) : lazyCalls (silence failed raw) = rawCalls raw := by
+  induction raw generalizing failed with
+  | nil => rfl
+  | cons it rest ih =>
+    cases it with
+    | text s => simp only [silence, lazyCalls, rawCalls, List.filterMap_cons]; exact ih failed
+    | lazy id s =>
+      simp only [silence, lazyCalls, rawCalls, List.filterMap_cons]
+      have := ih failed
+      simp only [lazyCalls, rawCalls] at this
+      rw [this]
+    | fail => simp only [silence, lazyCalls, rawCalls, List.filterMap_cons]; exact ih true
+
+/-- a failed stream receives no text any more -/
+theorem texts_silence_failed (raw : List RawItem) : texts (silence true raw) = [] := by
+  induction raw with
+  | nil => rfl
+  | cons it rest ih =>
+    cases it <;> simp_all [silence, texts]
+
+/-- the text of a statement is what was streamed before the first failing insertion -/
+theorem texts_silence_prefix (pre : List Item) (post : List RawItem) (toRaw : List RawItem)
+    (hpre : silence false toRaw = pre) (hnf : RawItem.fail ∉ toRaw) :
+    texts (silence false (toRaw ++ .fail :: post)) = texts pre := by
+  subst hpre
+  induction toRaw with
+  | nil =>
+    have h := texts_silence_failed post
+    simp only [List.nil_append, silence]
+    simp only [texts, List.map_cons, List.flatten_cons, List.nil_append, List.map_nil, List.flatten_nil] at h ⊢
+    exact h
+  | cons it rest ih =>
+    have hrest : RawItem.fail ∉ rest := fun h => hnf (by simp [h])
+    cases it with
+    | fail => exact absurd (by simp) hnf
+    | text s =>
+      simp only [List.cons_append, silence, Bool.false_eq_true, if_false]
+      have := ih hrest
+      simp only [texts, List.map_cons, List.flatten_cons] at this ⊢
+      rw [this]
+    | lazy id s =>
+      simp only [List.cons_append, silence, Bool.false_eq_true, if_false]
+      have := ih hrest
+      simp only [texts, List.map_cons, List.flatten_cons] at this ⊢
+      rw [this]
+
+/-- **Callables after a failed insertion are still called exactly once each, in place**: for an
+emitted record whose statement contains values that leave the string stream failed, the callable
+events are exactly the statement's callables in statement order — in either syntactic form. -/
+theorem enabled_once_despite_failure (cfg : Cfg) (th : Nat → Sev) (sev : Sev) (tag : Option Str)
+    (raw : List RawItem) (named : Option Nat) (hmin : ¬ sev < cfg.minSev)
+    (hf : evalF th cfg.filter sev = true) :
+    (statement cfg th sev tag (silence false raw) named).filter isLazy = rawCalls raw := by
+  rw [(enabled_once_in_place cfg th sev tag (silence false raw) named hmin hf).1, lazyCalls_silence]
+
+example : statement ⟨0, .null, 1⟩ (fun _ => 0) 2 none
+    (silence false [.text ['a'], .fail, .lazy 4 ['b'], .text ['c']]) none =
+    [.lazyCall 4, .fmt 2 none ['a'], .sink 0 2 none ['a']] := by decide
+
 /-- the statement's stream type is the discarding one exactly below the compile-time minimum -/
 theorem stream_type (minSev sev : Sev) : streamIsNull minSev sev = true ↔ sev < minSev := by
   simp [streamIsNull]
